@@ -149,6 +149,10 @@ func (c *IAMCache) CreateAccount(account Account) error {
 		Access: strings.Clone(account.Access),
 		Secret: strings.Clone(account.Secret),
 		Role:   Role(strings.Clone(string(account.Role))),
+		// the ids are part of the account as well: without them a lookup
+		// served from the cache reports uid 0 / gid 0 until the entry expires
+		UserID:  account.UserID,
+		GroupID: account.GroupID,
 	}
 
 	c.iamcache.set(acct.Access, acct)
